@@ -19,6 +19,7 @@ import r_ladder
 import r_repstate
 import r_shape
 import r_family
+import r_slotmod
 import r_rngprov
 import r_dispatch
 import r_range
@@ -233,7 +234,9 @@ def c01(facts, tier):
                  "the scheme) and refuse under an unknown scheme; R-REPSTATE on the encryption/decryption call tree per "
                  "scheme and flag assumption (the level-dependent mod-switch of public-key encryptions uses the routine of "
                  "the ciphertext's representation, nothing mixes representations, results leave with data matching their "
-                 "flag); R-RNGPROV(seedrt): the stored seed is written and expanded at the same address/length.",
+                 "flag); R-RNGPROV(seedrt): the stored seed is written and expanded at the same address/length; "
+                 "R-METAFLOW(table): the level / scale / representation flag / correction factor recorded on a fresh "
+                 "encryption (CKKS: the plaintext's own level and scale).",
                  "that decryption returns the plaintext, any noise bound, the CKKS error bound.")
     n = r_dispatch.run(facts, rep)
     rep.floor("R-DISPATCH", "encryption entry points", n, 24)
@@ -257,6 +260,33 @@ def c01(facts, tier):
     tree = ents + [p for p in facts.items if p.startswith("util::rlwe::encrypt_zero::")]
     repstate(facts, rep, tree, 130)
     r_rngprov_seed(facts, rep)
+    # metadata of a fresh encryption: the level the zero encryption is created at is the level the message is added at
+    M = r_meta
+    me = meta_engines(facts)
+    rep.rule("R-METAFLOW(table)", "fresh encryptions carry the metadata the scheme implies: CKKS at the plaintext's own level "
+             "with its scale and in NTT form; BFV (coefficient form) and BGV (NTT form) at the first level; "
+             "encrypt_zero*_at at the requested level; correction factor 1")
+    enc = [p for p in facts.methods_of("encryptor::Encryptor", pub_only=True) if facts.items[p]["name"].startswith("encrypt")]
+    first = lambda y: M.mentions(y, lambda z: z[0] == "call" and z[1] in ("first_parms_id", "first_context_data"))
+    nrows = 0
+    for sc in ("BFV", "CKKS", "BGV"):
+        rows = []
+        for p in enc:
+            nm = facts.items[p]["name"]
+            has_plain = bool(_ops(facts, p, "text::Plaintext"))
+            if has_plain and sc == "CKKS":
+                rows.append((p, "level", lambda y: y == M.S("level", 0), "level(plain)"))
+                rows.append((p, "scale", lambda y: y == M.S("scale", 0), "scale(plain)"))
+            elif "_at" in nm:
+                rows.append((p, "level", lambda y: y == ("ploc", "parms_id"), "the requested parms_id"))
+            else:
+                rows.append((p, "level", first, "the first level"))
+            rows.append((p, "ntt", lambda y, sc=sc: y == ("lit", "false" if sc == "BFV" else "true"),
+                         "coefficient form" if sc == "BFV" else "NTT form"))
+            rows.append((p, "cf", lambda y: y == ("lit", "1"), "1"))
+        M.check_table(me[sc][0], me[sc][1], rep, sc, rows)
+        nrows += len(rows)
+    rep.floor("R-METAFLOW(table)", "fresh-encryption metadata rows", nrows, 200)
     return rep
 
 
@@ -279,7 +309,9 @@ def c02(facts, tier):
                  "R-METAFLOW(table): the BGV correction factor recorded by multiply / square / mod-switch is the modular "
                  "product the operation implies; R-REPSTATE on the BFV and BGV projections of the evaluator's public "
                  "operations (no mixed-representation arithmetic, transforms and RNS routines in their own domain, "
-                 "results leave canonical and with data matching their representation flag).",
+                 "results leave canonical and with data matching their representation flag); R-SLOTMOD: in the key-switch "
+                 "back end every stage touching slot s of the RNS-laid-out product buffer does so under the same prime "
+                 "index (symbolic unification of slot and index expressions under loop ranges).",
                  "exactness of the BEHZ multiplication steps, noise growth, the arithmetic of "
                  "balance_correction_factors, that decryption returns the ring product.")
     files = None if tier == "thorough" else {"src/evaluator.rs", "src/encryptor.rs", "src/key.rs", "src/util/scaling_variant.rs"}
@@ -317,6 +349,9 @@ def c02(facts, tier):
         for i in rep.instances[before:]:
             i["key"] = i["key"].replace("R-REPSTATE/", "R-REPSTATE/%s/" % sc, 1)
     rep.floor("R-REPSTATE", "(entry, scheme, assumption) analyses", n, 250)
+    # key switching (relinearisation / rotation back end, shared by all schemes): the residues of each RNS slot of the
+    # scratch product are produced and consumed under the same prime at every level
+    r_slotmod.run(facts, rep, lambda p: facts.items.get(p, {}).get("file") == "src/evaluator.rs", floor_sites=6, floor_pairs=10)
     return rep
 
 
